@@ -140,7 +140,19 @@ func c02Pair(w *W) {
 	}
 	addr := w.Addr(tran)
 	attA := 0
+	// the application may turn the first connection attempts away (closing the
+	// pipe in its Attaching callback, the documented way): such a pipe never
+	// was the peer, and the next attempt is admitted
+	turnAway := []int{0, 0, 1, 2}[w.Choose(simrt.SShape, 4)]
+	w.SetShape("turned_away_first", turnAway)
 	a.SetPipeEventHook(func(ev mangos.PipeEvent, p mangos.Pipe) {
+		if ev == mangos.PipeEventAttaching && turnAway > 0 {
+			turnAway--
+			w.Fault("reject-hook")
+			_ = p.Close()
+			w.Probe("peer-turned-away-in-attaching-hook")
+			return
+		}
 		if ev == mangos.PipeEventAttached {
 			attA++
 		}
@@ -153,11 +165,15 @@ func c02Pair(w *W) {
 		w.Failf("HARNESS/dial", "%v", err)
 		return
 	}
-	for i := 0; i < 100 && attA == 0; i++ {
+	for i := 0; i < 400 && attA == 0; i++ {
 		w.Sleep(time.Millisecond)
 		w.Settle()
 	}
 	if attA != 1 {
+		if w.Shape["turned_away_first"] != 0 {
+			w.Failf("C02/pair-not-readmitting", "%s over %s: the first connection attempt(s) were turned away by the application's Attaching callback; 400ms (20 reconnect intervals) later no peer has been admitted (attached=%d)", kind, tran, attA)
+			return
+		}
 		w.Failf("HARNESS/attach", "A-B did not attach (attA=%d)", attA)
 		return
 	}
